@@ -78,7 +78,8 @@ def splice(raw, bb, craw, tag):
         # inlined locals are temporaries of the caller: their names must not be confused with the caller's variables
         if 'name' in l2:
             l2['oname'] = l2.pop('name')
-        l2.pop('user', None)
+        if l2.pop('user', None):
+            l2['iuser'] = True
         raw['locals'].append(l2)
     for blk in craw['blocks']:
         nb = {'s': _renum_locals(blk['s'], loff), 't': _renum_targets(_renum_locals(copy.deepcopy(blk['t']), loff), boff)}
